@@ -119,9 +119,16 @@ class Decimal(SimpleModel):
 
         msl = kwargs.get('max_str_len', None)
         if msl is None:
-            kwargs['max_str_len'] = cls.Attributes.total_digits + 2
-            # + 1 for decimal separator
-            # + 1 for negative sign
+            total_digits = td
+            if total_digits is None:
+                total_digits = cls.Attributes.total_digits
+
+            # an unbounded number of digits says nothing about the length of
+            # the string: keep the inherited limit.
+            if total_digits != decimal.Decimal('inf'):
+                kwargs['max_str_len'] = total_digits + 2
+                # + 1 for decimal separator
+                # + 1 for negative sign
 
         else:
             kwargs['max_str_len'] = msl
